@@ -12,7 +12,10 @@ package c18
 
 import (
 	"encoding/hex"
+	"encoding/json"
 	"fmt"
+	"github.com/ogen-go/ogen/jsonpointer"
+	"github.com/ogen-go/ogen/jsonschema"
 	"math"
 	"runtime"
 	"sort"
@@ -680,6 +683,31 @@ func parseEnum(typ string, members []string) (string, string) {
 	return outcome, text
 }
 
+// parseEnumJSON feeds the schema to the schema parser as a RawSchema decoded from JSON (the route of library
+// users and of the DSL): enum members keep their text, no YAML front end is involved.
+func parseEnumJSON(typ string, members []string) (string, string) {
+	outcome, text := "ok", ""
+	if p, txt := ev.Guard(func() {
+		var raw jsonschema.RawSchema
+		err := json.Unmarshal([]byte(enumSchema(typ, members)), &raw)
+		if err == nil {
+			ps := jsonschema.NewParser(jsonschema.Settings{})
+			_, err = ps.Parse(&raw, jsonpointer.NewResolveCtx(nil, jsonpointer.DefaultDepthLimit))
+		}
+		if err != nil {
+			text = err.Error()
+			if strings.Contains(text, dupDiagnostic) {
+				outcome = "duplicate"
+			} else {
+				outcome = "other-error"
+			}
+		}
+	}); p {
+		return "panic", txt
+	}
+	return outcome, text
+}
+
 // approxEqual: structural equality in which numbers are compared after
 // rounding to float64 (the predicate behind the "*-float64-rounding" signatures).
 func approxEqual(a, b *jsonv.Value) bool {
@@ -908,6 +936,19 @@ func decideEnum(c enumCase, verbose bool) (vs []violation, counts map[string]int
 		vs = append(vs, violation{"enum/distinct-reported-duplicate/" + cause, fmt.Sprintf("enum %q rejected as duplicate although all members are different values (pair %q): %s", texts(c.members), w.Pair, strings.ReplaceAll(text, "\n", " ")), w})
 	case !wantDup && outcome == "other-error":
 		counts["enum_distinct_rejected_with_other_diagnostic"]++
+	}
+	// the same schema through the JSON-decoded RawSchema: decided exactly (no front-end classes apply)
+	o2, t2 := parseEnumJSON(c.typ, texts(c.members))
+	counts["enum_json_route_outcome/"+o2+"/oracle_duplicate="+strconv.FormatBool(wantDup)]++
+	w2 := &witness{Kind: "enum", Rule: "jsonschema.Parser on a RawSchema decoded from JSON: rejected with \"" + dupDiagnostic + "\" iff two enum members denote the same JSON value",
+		Members: texts(c.members), Type: c.typ, Outcome: o2 + ": " + t2, Labels: c.labels, Oracle: map[string]string{"duplicate_members": strconv.FormatBool(wantDup)}}
+	switch {
+	case o2 == "panic":
+		vs = append(vs, violation{"enum-json-route/panic", fmt.Sprintf("schema parser panics on enum %q: %s", texts(c.members), t2), w2})
+	case wantDup && o2 == "ok":
+		vs = append(vs, violation{"enum-json-route/duplicate-accepted", fmt.Sprintf("enum %q accepted although two members denote the same value", texts(c.members)), w2})
+	case !wantDup && o2 == "duplicate":
+		vs = append(vs, violation{"enum-json-route/distinct-reported-duplicate", fmt.Sprintf("enum %q rejected as duplicate although all members are different values: %s", texts(c.members), strings.ReplaceAll(t2, "\n", " ")), w2})
 	}
 	return vs, counts
 }
